@@ -61,6 +61,44 @@ ASSUMPTIONS = [
     "(PyTD) signatures take their expected types from "
     "PyTDSignature._map_args, which R2.7 does not cover",
 ]
+# rules/c02_saverestore.py (R2.23), rules/c02_stores.py (R2.24)
+EXPLANATION += (
+    "  R2.23 (rules/c02_saverestore.py) save/restore discipline in matcher.py, "
+    "vm.py, vm_utils.py, annotation_utils.py and abstract/{_function_base,"
+    "_interpreter_function,function}.py: for every pair `saved = A` / "
+    "`saved = copy-of(A)` ... `A = saved` in one function (A an attribute "
+    "path, `saved` bound once) the snapshot is a copy (set/dict/list/"
+    "frozenset/tuple(A), A.copy(), copy.copy(A), A[:], {*A}), or A is "
+    "re-bound to another object on every path before the restore (must-flow), "
+    "or the class never mutates A in place; a bare alias of a container that "
+    "is mutated in place (`A.add/append/update/..`, `A[k] = v`, `del A[k]`, "
+    "`A |= ..`) and not re-bound makes the restore a no-op - a violation.  "
+    "In AbstractMatcher._track_partially_matched_protocols the surviving "
+    "entries are recursion-guard keys that make _match_against_protocol "
+    "answer 'matches'.  R2.24 (rules/c02_stores.py) every handler of an "
+    "opcode that stores into the frame's own scope (STORE_NAME and the "
+    "STORE_* members of CPython's haslocal/hasfree opcode classes: "
+    "STORE_FAST, STORE_DEREF) is followed through the VM's helper methods "
+    "with constant-argument propagation (`local=True`, conditional "
+    "expressions and if-statements on propagated constants folded) to the "
+    "_apply_annotation calls it can reach: at least one is reached and every "
+    "one receives self.current_annotated_locals as annotations_dict and a "
+    "true check_types; and _apply_annotation falls back to the table's "
+    "recorded type inside its `annotations_dict is not None` arm.  Blind "
+    "spots: R2.23 matches in-place mutations by the attribute's dotted path "
+    "inside the class (aliases of the container held elsewhere are not "
+    "followed) and does not look at element-level save/restore "
+    "(`old = d.get(k)` .. `d[k] = old`); R2.24 does not decide which paths "
+    "of a handler bypass _apply_annotation (the match-statement `as` capture "
+    "and the deletion path of STORE_FAST do, by design), nor stores to "
+    "globals/nonlocals from an inner scope.")
+ASSUMPTIONS += [
+    "R2.23: `copy-of` calls are shallow copies of a flat container, which is "
+    "what the restored state needs (the protocol cache holds tuples)",
+    "R2.24: the host CPython's opcode.haslocal / hasfree tables classify "
+    "which STORE_* opcodes address the frame's own variables; a cell variable "
+    "(STORE_DEREF) is a local of the frame that creates it",
+]
 
 NUMERIC = {"bool", "int", "float", "complex"}
 
